@@ -131,6 +131,8 @@ namespace sim
    template< int J > struct mw_cc : pegtl::seq< mkid< J, 0 > > {};   // change_control< ctl2 >
    template< int J > struct mw_cas : pegtl::seq< mkid< J, 0 > > {};  // change_action_and_state< act2, sim_state >
    template< int J > struct mw_cass : pegtl::seq< mkid< J, 0 > > {}; // change_action_and_states< act2, sim_state >
+   template< int J > struct mw_cs : pegtl::seq< mkid< J, 0 > > {};   // change_state< sim_state >   (direct child of control< ctl2, ... >)
+   template< int J > struct mw_da : pegtl::seq< mkid< J, 0 > > {};   // disable_action              (direct child of control< ctl2, ... >)
 
    template< int I > struct sim_action< w_cs< I > > : pegtl::change_state< sim_state > { static constexpr int family = 1; };
    template< int I > struct sim_action< w_css< I > > : pegtl::change_states< sim_state >
@@ -149,6 +151,8 @@ namespace sim
    template< int N, int I > struct sim_action< w_cb< N, I > > : pegtl::check_bytes< N > { static constexpr int family = 1; };
    template< int J > struct sim_action< mw_ca< J > > : pegtl::change_action< act2 > { static constexpr int family = 1; };
    template< int J > struct sim_action< mw_cc< J > > : pegtl::change_control< ctl2 > { static constexpr int family = 1; };
+   template< int J > struct sim_action< mw_cs< J > > : pegtl::change_state< sim_state > { static constexpr int family = 1; };
+   template< int J > struct sim_action< mw_da< J > > : pegtl::disable_action { static constexpr int family = 1; };
    template< int J > struct sim_action< mw_cas< J > > : pegtl::change_action_and_state< act2, sim_state > { static constexpr int family = 1; };
    template< int J > struct sim_action< mw_cass< J > > : pegtl::change_action_and_states< act2, sim_state >
    {
@@ -357,7 +361,7 @@ namespace sim
       using rule_t = mini;
       using MK0 = mkid< J, 0 >;
       using MK1 = mkid< J, 1 >;
-      using subs_t = pegtl::type_list< matoms, MK0, pegtl::seq< MK0, MK1 >, pegtl::sor< MK0, MK1 >, pegtl::star< MK0 >, pegtl::opt< MK0 >, pegtl::at< MK0 >, pegtl::not_at< MK0 >, pegtl::must< MK0 >, pegtl::try_catch_any_return_false< MK0 >, mw_ca< J >, mw_cc< J >, pegtl::action< act2, MK0 >, pegtl::control< ctl2, MK0 >, mw_cas< J >, mw_cass< J >, pegtl::disable< MK0 >, pegtl::enable< MK0 >, pegtl::state< sim_state, MK0 > >;
+      using subs_t = pegtl::type_list< matoms, MK0, pegtl::seq< MK0, MK1 >, pegtl::sor< MK0, MK1 >, pegtl::star< MK0 >, pegtl::opt< MK0 >, pegtl::at< MK0 >, pegtl::not_at< MK0 >, pegtl::must< MK0 >, pegtl::try_catch_any_return_false< MK0 >, mw_ca< J >, mw_cc< J >, pegtl::action< act2, MK0 >, pegtl::control< ctl2, MK0 >, mw_cas< J >, mw_cass< J >, pegtl::disable< MK0 >, pegtl::enable< MK0 >, pegtl::state< sim_state, MK0 >, pegtl::control< ctl2, mw_cs< J > >, pegtl::control< ctl2, mw_da< J > >, pegtl::action< act2, mw_cas< J > >, pegtl::action< act2, mw_cass< J > >, pegtl::disable< mw_ca< J > >, pegtl::state< sim_state, mw_cc< J > > >;
 
       template< pegtl::apply_mode A, pegtl::rewind_mode M, template< typename... > class Action, template< typename... > class Control, typename In, typename... St >
       [[nodiscard]] static bool match( In& in, St&&... st );
@@ -432,6 +436,48 @@ namespace sim
          case MOP_STATE:
             if constexpr( state_ok ) {
                return Control< pegtl::state< sim_state, MK0 > >::template match< A, M, Action, Control >( in, st... );
+            }
+            else {
+               return SIM_FWD( MK0 );
+            }
+         case MOP_CONTROL_CS:
+            if constexpr( fam1 && ctl1 && state_ok && ( ( caps & CAP_CTLSWITCH ) != 0 ) ) {
+               return Control< pegtl::control< ctl2, mw_cs< J > > >::template match< A, M, Action, Control >( in, st... );
+            }
+            else {
+               return SIM_FWD( MK0 );
+            }
+         case MOP_CONTROL_DA:
+            if constexpr( fam1 && ctl1 && ( ( caps & CAP_CTLSWITCH ) != 0 ) ) {
+               return Control< pegtl::control< ctl2, mw_da< J > > >::template match< A, M, Action, Control >( in, st... );
+            }
+            else {
+               return SIM_FWD( MK0 );
+            }
+         case MOP_ACTION_CAS:
+            if constexpr( fam1 && ctl1 ) {
+               return Control< pegtl::action< act2, mw_cas< J > > >::template match< A, M, Action, Control >( in, st... );
+            }
+            else {
+               return SIM_FWD( MK0 );
+            }
+         case MOP_ACTION_CASS:
+            if constexpr( fam1 && ctl1 ) {
+               return Control< pegtl::action< act2, mw_cass< J > > >::template match< A, M, Action, Control >( in, st... );
+            }
+            else {
+               return SIM_FWD( MK0 );
+            }
+         case MOP_DISABLE_CA:
+            if constexpr( fam1 && ctl1 ) {
+               return Control< pegtl::disable< mw_ca< J > > >::template match< A, M, Action, Control >( in, st... );
+            }
+            else {
+               return SIM_FWD( pegtl::disable< MK0 > );
+            }
+         case MOP_STATE_CC:
+            if constexpr( fam1 && ctl1 && state_ok && ( ( caps & CAP_CTLSWITCH ) != 0 ) ) {
+               return Control< pegtl::state< sim_state, mw_cc< J > > >::template match< A, M, Action, Control >( in, st... );
             }
             else {
                return SIM_FWD( MK0 );
